@@ -44,20 +44,26 @@ const (
 	OSExt
 	OExtract // low W bits
 	// floating point on bit patterns
-	OFEq    // IEEE ==, operands W=32/64, result Bool
-	OFLt    // IEEE <
-	OFLe    // IEEE <=
-	OFCvt   // float W(arg) -> float W, round to nearest even
-	OFToSI  // float -> signed int of width W (truncate); out-of-range unspecified
-	OFToUI  // float -> unsigned int of width W
-	OSIToF  // signed int (arg width) -> float W, RNE
-	OUIToF  // unsigned int -> float W, RNE
-	OFNeg   // float negate (flip sign bit) — encoded as xor
+	OFEq   // IEEE ==, operands W=32/64, result Bool
+	OFLt   // IEEE <
+	OFLe   // IEEE <=
+	OFCvt  // float W(arg) -> float W, round to nearest even
+	OFToSI // float -> signed int of width W (truncate); out-of-range unspecified
+	OFToUI // float -> unsigned int of width W
+	OSIToF // signed int (arg width) -> float W, RNE
+	OUIToF // unsigned int -> float W, RNE
+	OFNeg  // float negate (flip sign bit) — encoded as xor
+	OFAdd  // IEEE arithmetic on bit patterns, round to nearest even
+	OFSub
+	OFMul
+	OFDiv
+	OFRnd // round to integral; C: 0 toward zero, 1 down, 2 up, 3 nearest-away, 4 nearest-even
+	OFSqrt
 	opCount
 )
 
 var opNames = [...]string{"const", "var", "add", "sub", "mul", "udiv", "sdiv", "urem", "srem", "and", "or", "xor", "not", "neg", "shl", "lshr", "ashr",
-	"eq", "ult", "ule", "slt", "sle", "bnot", "band", "bor", "ite", "zext", "sext", "extract", "feq", "flt", "fle", "fcvt", "ftosi", "ftoui", "sitof", "uitof", "fneg"}
+	"eq", "ult", "ule", "slt", "sle", "bnot", "band", "bor", "ite", "zext", "sext", "extract", "feq", "flt", "fle", "fcvt", "ftosi", "ftoui", "sitof", "uitof", "fneg", "fadd", "fsub", "fmul", "fdiv", "frnd", "fsqrt"}
 
 type iv struct{ lo, hi uint64 }
 
@@ -65,9 +71,9 @@ type iv struct{ lo, hi uint64 }
 type Term struct {
 	Op   Op
 	W    uint8
-	hard bool // contains div/rem by other than a power of two, symbolic*symbolic, or a deep chain of constant multiplications
+	hard bool  // contains div/rem by other than a power of two, symbolic*symbolic, or a deep chain of constant multiplications
 	md   uint8 // depth of nested multiplications by constants (not powers of two)
-	fp   bool // contains floating point operators
+	fp   bool  // contains floating point operators
 	C    uint64
 	Name string
 	A    [3]*Term
@@ -184,7 +190,7 @@ func (f *TermFactory) mk(op Op, w int, c uint64, name string, a, b, d *Term) *Te
 		if !(b != nil && b.IsConst() && bits.OnesCount64(b.C) <= 1) {
 			t.hard = true
 		}
-	case OFEq, OFLt, OFLe, OFCvt, OFToSI, OFToUI, OSIToF, OUIToF:
+	case OFEq, OFLt, OFLe, OFCvt, OFToSI, OFToUI, OSIToF, OUIToF, OFAdd, OFSub, OFMul, OFDiv, OFRnd, OFSqrt:
 		t.fp = true
 	}
 	f.tab[k] = t
@@ -308,6 +314,14 @@ func foldBin(op Op, w int, x, y uint64) (r uint64, isBool bool, ok bool) {
 		return b2u(fbits(w, x) < fbits(w, y)), true, true
 	case OFLe:
 		return b2u(fbits(w, x) <= fbits(w, y)), true, true
+	case OFAdd:
+		return tobits(w, fbits(w, x)+fbits(w, y)), false, true
+	case OFSub:
+		return tobits(w, fbits(w, x)-fbits(w, y)), false, true
+	case OFMul:
+		return tobits(w, fbits(w, x)*fbits(w, y)), false, true
+	case OFDiv:
+		return tobits(w, fbits(w, x)/fbits(w, y)), false, true
 	default:
 		return 0, false, false
 	}
@@ -640,6 +654,36 @@ func (f *TermFactory) Resize(a *Term, w int, signed bool) *Term {
 	return f.mk(OZExt, w, 0, "", a, nil, nil)
 }
 
+// roundF: math.Trunc/Floor/Ceil/Round/RoundToEven by mode.
+func roundF(mode uint64, v float64) float64 {
+	switch mode {
+	case 0:
+		return math.Trunc(v)
+	case 1:
+		return math.Floor(v)
+	case 2:
+		return math.Ceil(v)
+	case 3:
+		return math.Round(v)
+	}
+	return math.RoundToEven(v)
+}
+
+// FRnd rounds a float (bit pattern) to an integral value.
+func (f *TermFactory) FRnd(a *Term, mode uint64) *Term {
+	if a.IsConst() {
+		return f.K(int(a.W), tobits(int(a.W), roundF(mode, fbits(int(a.W), a.C))))
+	}
+	return f.mk(OFRnd, int(a.W), mode, "", a, nil, nil)
+}
+
+func (f *TermFactory) FSqrt(a *Term) *Term {
+	if a.IsConst() {
+		return f.K(int(a.W), tobits(int(a.W), math.Sqrt(fbits(int(a.W), a.C))))
+	}
+	return f.mk(OFSqrt, int(a.W), 0, "", a, nil, nil)
+}
+
 // FP conversions
 func (f *TermFactory) FCvt(a *Term, w int) *Term {
 	if int(a.W) == w {
@@ -764,6 +808,10 @@ func (ev *Evaluator) eval(t *Term, m Model) uint64 {
 		r = tobits(w, float64(sext(ev.eval(t.A[0], m), int(t.A[0].W))))
 	case OUIToF:
 		r = tobits(w, float64(ev.eval(t.A[0], m)))
+	case OFRnd:
+		r = tobits(w, roundF(t.C, fbits(w, ev.eval(t.A[0], m))))
+	case OFSqrt:
+		r = tobits(w, math.Sqrt(fbits(w, ev.eval(t.A[0], m))))
 	case OBAnd:
 		if ev.eval(t.A[0], m) == 1 && ev.eval(t.A[1], m) == 1 {
 			r = 1
